@@ -225,8 +225,13 @@ func (im IBCMiddleware) OnTimeoutPacket(
 	}
 
 	sdkCtx := sdk.UnwrapSDKContext(ctx)
-	if err := im.keeper.OnTimeoutOutgoingInFlightPacket(sdkCtx, packet, inflightPacket); err != nil {
+	resent, err := im.keeper.OnTimeoutOutgoingInFlightPacket(sdkCtx, packet, inflightPacket)
+	if err != nil {
 		return err
+	}
+	if resent {
+		// the transfer is still in flight under a new sequence: no refund
+		return nil
 	}
 
 	return im.IBCModule.OnTimeoutPacket(ctx, channelVersion, packet, relayer)
